@@ -113,4 +113,13 @@ def readAllFuel (enc : Encoding) : Nat → Sched → List Str × Option IoKind
 def readAll (enc : Encoding) (s : Sched) : List Str × Option IoKind :=
   readAllFuel enc (Sched.size s + 1) s
 
+/-- `BufReader::with_capacity(c, &bytes[..])` as a schedule: every refill hands out the next
+`min c remaining` bytes; a partly consumed buffer is served before the next refill (`pushRest`). -/
+def chunksOfFuel (c : Nat) : Nat → List UInt8 → Sched
+  | 0, _ => []
+  | fuel + 1, bs =>
+    if bs.isEmpty then [] else .chunk (bs.take c) :: chunksOfFuel c fuel (bs.drop c)
+
+def Sched.chunksOf (c : Nat) (bs : List UInt8) : Sched := chunksOfFuel c bs.length bs
+
 end Rosu
